@@ -107,8 +107,9 @@ def e_sd(d):
 
 
 def e_col(c):
-    return "(mkCol %s %s %s %s %s %s %s)" % (e_ident(c["name"]), e_ty(c["type"]), opt(c["default"], e_sd),
-                                             opt(c["autoinc"], b), b(c["nullable"]), b(c["system"]), opt(c["comment"], S))
+    return "(mkCol %s %s %s %s %s %s %s %s)" % (e_ident(c["name"]), e_ty(c["type"]), opt(c["default"], e_sd),
+                                                opt(c["autoinc"], b), b(c["nullable"]), b(c["system"]), opt(c["comment"], S),
+                                                opt(c.get("key"), S))
 
 
 def e_cons(k):
@@ -116,7 +117,7 @@ def e_cons(k):
         return "(CPk %s %s)" % (lst(k["cols"], e_ident), e_cname(k["name"]))
     if k["k"] == "fk":
         return "(CFk %s %s %s %s %s %s %s %s %s)" % (
-            lst(k["cols"], e_ident), lst(k["refcols"], S), e_cname(k["name"]), opt(k["onupdate"], S), opt(k["ondelete"], S),
+            lst(k["cols"], e_ident), lst(k["refcols"], lambda r: "(mkRef %s %s)" % (S(r["spec"]), opt(r["named"], S))), e_cname(k["name"]), opt(k["onupdate"], S), opt(k["ondelete"], S),
             opt(k["initially"], S), opt(k["deferrable"], b), b(k["use_alter"]), opt(k["match"], S))
     if k["k"] == "uq":
         return "(CUq %s %s %s %s)" % (lst(k["cols"], e_ident), e_cname(k["name"]), opt(k["deferrable"], b), opt(k["initially"], S))
@@ -140,7 +141,7 @@ def e_tri(t, f):
 
 
 def e_ix(x):
-    return "(IxCol %s)" % e_ident(x["col"]) if "col" in x else "(IxExpr %s)" % S(x["expr"])
+    return "(IxCol %s %s)" % (e_ident(x["col"]), opt(x.get("key"), S)) if "col" in x else "(IxExpr %s)" % S(x["expr"])
 
 
 def e_tblop(o):
@@ -387,6 +388,28 @@ def a_default(d):
     raise OutsideUniverse("server default %r" % (d,))
 
 
+def key_of(c):
+    """Column.key when it is not the database name"""
+    return str(c.key) if c.key is not None and str(c.key) != str(c.name) else None
+
+
+def ref_col(f, namespace_metadata):
+    """the referred column of a ForeignKey: ForeignKey._get_colspec() (by KEY) and, where the namespace MetaData knows the
+    table (the lookup _fk_colspec makes), the same spec with the column's database name"""
+    spec = f._get_colspec()
+    tokens = spec.split(".")
+    table_fullname, colname = ".".join(tokens[:-1]), tokens[-1]
+    named = None
+    if namespace_metadata is not None and not f.link_to_name and f.parent is not None and f.parent.table is not None \
+            and table_fullname in namespace_metadata.tables:
+        col = namespace_metadata.tables[table_fullname].c.get(colname)
+        if col is not None:
+            named = "%s.%s" % (table_fullname, col.name)
+    if namespace_metadata is not None and namespace_metadata.schema is not None:
+        raise OutsideUniverse("MetaData(schema=...)")
+    return {"spec": spec, "named": named}
+
+
 def a_column(c):
     if c.kwargs:
         raise OutsideUniverse("column dialect kwargs")
@@ -396,10 +419,10 @@ def a_column(c):
     elif ai not in (True, False):
         raise OutsideUniverse("autoincrement=%r" % (ai,))
     return {"name": a_ident(c.name), "type": type_tree(c.type), "default": a_default(c.server_default), "autoinc": ai,
-            "nullable": bool(c.nullable), "system": bool(c.system), "comment": c.comment}
+            "nullable": bool(c.nullable), "system": bool(c.system), "comment": c.comment, "key": key_of(c)}
 
 
-def a_constraint(k):
+def a_constraint(k, namespace_metadata=None):
     import sqlalchemy as sa
     from alembic.util import sqla_compat
     if k.dialect_kwargs:
@@ -409,7 +432,8 @@ def a_constraint(k):
             return None
         return {"k": "pk", "cols": [a_ident(c.name) for c in k.columns], "name": a_cname(k.name)}
     if isinstance(k, sa.ForeignKeyConstraint):
-        return {"k": "fk", "cols": [a_ident(f.parent.name) for f in k.elements], "refcols": [f._get_colspec() for f in k.elements],
+        return {"k": "fk", "cols": [a_ident(f.parent.name) for f in k.elements],
+                "refcols": [ref_col(f, namespace_metadata) for f in k.elements],
                 "name": a_cname(k.name), "onupdate": k.onupdate, "ondelete": k.ondelete, "initially": k.initially,
                 "deferrable": k.deferrable, "use_alter": bool(k.use_alter), "match": k.match}
     if isinstance(k, sa.UniqueConstraint):
@@ -432,7 +456,7 @@ def a_table(op):
     t = op.to_table()
     if op.info or op.kw:
         raise OutsideUniverse("table info / dialect kwargs")
-    cons = [x for x in (a_constraint(k) for k in t.constraints) if x is not None]
+    cons = [x for x in (a_constraint(k, op._namespace_metadata) for k in t.constraints) if x is not None]
     return {"name": a_ident(op.table_name), "schema": a_ident(op.schema), "cols": [a_column(c) for c in t.columns],
             "cons": cons, "comment": op.comment, "prefixes": [str(p) for p in (op.prefixes or [])],
             "if_not_exists": op.if_not_exists}
@@ -496,7 +520,7 @@ def a_tblop(op):
         exprs = []
         for e in idx.expressions:
             if isinstance(e, sa.Column):
-                exprs.append({"col": a_ident(e.name)})
+                exprs.append({"col": a_ident(e.name), "key": key_of(e)})
             else:
                 if isinstance(e, sa.sql.elements.Label):
                     raise OutsideUniverse("labelled index expression")
